@@ -91,6 +91,7 @@ def pots_check(prop, tier, seed, work, replay):
     simfile = os.path.join(dr.d, "sim.scripts")
     nsim = ec.sim_scripts(work, 150 if tier == "quick" else 1000, seed, simfile, 5000000)
     dr.replay("sim", simfile, finish=True, seed=seed)
+    dr.repotests()
     eres = vlib.validate(work, sorted(dr.files), "HoldemTrace.tla", [prop], nchunks=max(4, vlib.NCPU // 2), heap="3g")
     log("[val] engine level: %d lines, %d failed clauses, %d drift, %.0fs" % (eres["lines"], len(eres["viol"]), len(eres["drift"]), eres["tlc_s"]))
 
@@ -272,6 +273,7 @@ def besthand_check(prop, tier, seed, work, replay):
     simfile = os.path.join(dr.d, "sim.scripts")
     nsim = ec.sim_scripts(work, 60 if q else 600, seed, simfile, 5000000)
     dr.replay("sim", simfile, finish=True, seed=seed)
+    dr.repotests()
     # (thorough: 2.8 M lines whose cost is the reference evaluation of 21 to 126 selections per published hand - CPU bound, one chunk per core)
     res = vlib.validate(work, sorted(dr.files), "HoldemTrace.tla", [prop], nchunks=max(4, vlib.NCPU // 2) if q else 2 * vlib.NCPU, heap="3g", timeout=7200,
                         jobs=None if q else max(4, vlib.NCPU - 2))
